@@ -26,47 +26,58 @@ def _eq_case(seed, i):
     if whole:
         kinds += ['bytes', 'bytearray', 'memoryview', 'memoryview strided', 'memoryview reversed', 'array.array', 'BytesIO', 'hex str']
     kind = rng.choice(kinds)
-    promotable = True
-    if kind == 'bin str':
-        rhs = '0b' + t if t else ''
-    elif kind == 'hex str':
-        rhs = '0x' + tb.hex() if tb else ''
-    elif kind == 'list of bools':
-        rhs = [c == '1' for c in t]
-    elif kind == 'tuple of ints':
-        rhs = tuple(int(c) for c in t)
-    elif kind == 'generator':
-        rhs = (c == '1' for c in t)
-    elif kind == 'bitarray big':
-        rhs = bitarray.bitarray(t)
-    elif kind == 'bitarray little':
-        rhs = bitarray.bitarray(t, endian='little')
-    elif kind == 'bytes':
-        rhs = tb
-    elif kind == 'bytearray':
-        rhs = bytearray(tb)
-    elif kind == 'memoryview':
-        rhs = memoryview(tb)
-    elif kind == 'memoryview strided':
-        raw = bytes(b for x in tb for b in (x, rng.randrange(256)))       # every second byte is the data
-        rhs = memoryview(raw)[::2]
-    elif kind == 'memoryview reversed':
-        rhs = memoryview(tb[::-1])[::-1]
-    elif kind == 'array.array':
-        rhs = array.array('B', tb)
-    elif kind == 'BytesIO':
-        rhs = io.BytesIO(tb)
-    else:
-        promotable = False
-        rhs = {'int': 5, 'float': 1.5, 'None': None, 'object': object()}[kind]
+    promotable = kind not in ('int', 'float', 'None', 'object')
+
+    def make():
+        # a fresh operand of the chosen kind denoting t
+        if kind == 'bin str':
+            rhs = '0b' + t if t else ''
+        elif kind == 'hex str':
+            rhs = '0x' + tb.hex() if tb else ''
+        elif kind == 'list of bools':
+            rhs = [c == '1' for c in t]
+        elif kind == 'tuple of ints':
+            rhs = tuple(int(c) for c in t)
+        elif kind == 'generator':
+            rhs = (c == '1' for c in t)
+        elif kind == 'bitarray big':
+            rhs = bitarray.bitarray(t)
+        elif kind == 'bitarray little':
+            rhs = bitarray.bitarray(t, endian='little')
+        elif kind == 'bytes':
+            rhs = tb
+        elif kind == 'bytearray':
+            rhs = bytearray(tb)
+        elif kind == 'memoryview':
+            rhs = memoryview(tb)
+        elif kind == 'memoryview strided':
+            raw = bytes(b for x in tb for b in (x, 0xa5))       # every second byte is the data
+            rhs = memoryview(raw)[::2]
+        elif kind == 'memoryview reversed':
+            rhs = memoryview(tb[::-1])[::-1]
+        elif kind == 'array.array':
+            rhs = array.array('B', tb)
+        elif kind == 'BytesIO':
+            rhs = io.BytesIO(tb)
+        else:
+            rhs = {'int': 5, 'float': 1.5, 'None': None, 'object': object()}[kind]
+        return rhs
+    rhs = make()
+    history = ''
+    if promotable and rng.random() < 0.4:
+        # how either side was built must not matter: a mutable bitstring built earlier from an equal operand and then changed in
+        # place (a memoised or shared store would carry the change into later promotions of the same operand)
+        twin = rng.choice([BitArray, BitStream])(make())
+        if len(twin):
+            twin.invert()
+        twin.append('0b1')
+        history = ' (after a mutable bitstring built from an equal operand was inverted and appended to)'
     want = promotable and s == t
-    desc = f"{cls.__name__}(bin={s!r}) ==/!= {kind} denoting {t!r}"
+    desc = f"{cls.__name__}(bin={s!r}) ==/!= {kind} denoting {t!r}{history}"
     try:
         e1 = a == rhs
-        if kind == 'generator':
-            rhs = (c == '1' for c in t)
-        if kind == 'BytesIO':
-            rhs = io.BytesIO(tb)
+        if kind in ('generator', 'BytesIO'):
+            rhs = make()
         n1 = a != rhs
         ok = e1 is want and n1 is (not want)
         if kind not in ('generator', 'BytesIO', 'list of bools', 'tuple of ints'):
